@@ -119,3 +119,9 @@ Proof. intros H. rewrite firstn_length. lia. Qed.
 
 Lemma skipn_length_exact {A} n (r : list A) m : length r = n + m -> length (skipn n r) = m.
 Proof. intros H. rewrite skipn_length. lia. Qed.
+
+Lemma nth_skipn {A} n (l : list A) i d : nth i (skipn n l) d = nth (n + i) l d.
+Proof.
+  revert l. induction n as [|n IH]; intros l; [reflexivity|].
+  destruct l as [|a l]; [destruct i; reflexivity|]. cbn [skipn Nat.add nth]. apply IH.
+Qed.
